@@ -44,6 +44,7 @@ type expGroup struct {
 	// for the finding classifier (aggregates only)
 	Empty   bool         // a bucket without data (filled)
 	Leading bool         // filled with null because no bucket with data precedes it
+	Phantom bool         // no value, but rows that pass the field filter exist in the window
 	Points  [][]model.Value // first/last: every (time,value) of the bucket / group
 }
 
@@ -418,7 +419,14 @@ func evaluate(q *querySpec, rows []mrow, schema map[string]byte, desc bool, qk q
 		}
 		es := expSeries{Tags: g.tags, Key: k, Cols: []string{"time", q.Func}, Kinds: []byte{'i', rk}, InPoints: len(ps)}
 		if q.Interval == 0 && len(ps) == 0 {
-			es.Groups = []expGroup{{Alts: [][]model.Value{{timeVal(loT), null}}, Take: 1, Empty: true}}
+			alts := [][]model.Value{{timeVal(loT), null}}
+			if q.Func == "first" || q.Func == "last" || q.Func == "min" || q.Func == "max" {
+				// a selector reports the time of one of the passing rows
+				for _, r := range g.rows {
+					alts = append(alts, []model.Value{timeVal(r.t), null})
+				}
+			}
+			es.Groups = []expGroup{{Alts: dedup(alts), Take: 1, Empty: true, Phantom: true}}
 			exp.Series = append(exp.Series, es)
 			continue
 		}
@@ -457,7 +465,7 @@ func evaluate(q *querySpec, rows []mrow, schema map[string]byte, desc bool, qk q
 			byBucket[b] = append(byBucket[b], p)
 		}
 		passing := map[int64]bool{}
-		if qk.PhantomNull {
+		if hasField {
 			for _, r := range g.rows {
 				passing[floorDiv(r.t, d)] = true
 			}
@@ -489,8 +497,8 @@ func evaluate(q *querySpec, rows []mrow, schema map[string]byte, desc bool, qk q
 			}
 			switch q.Fill {
 			case "none":
-				if passing[b] {
-					es.Groups = append(es.Groups, expGroup{Alts: [][]model.Value{{bt, null}}, Take: 1, Empty: true})
+				if passing[b] && qk.PhantomNull {
+					es.Groups = append(es.Groups, expGroup{Alts: [][]model.Value{{bt, null}}, Take: 1, Empty: true, Phantom: true})
 				}
 				continue
 			case "", "null":
@@ -516,6 +524,9 @@ func evaluate(q *querySpec, rows []mrow, schema map[string]byte, desc bool, qk q
 					v = model.Float(float64(n))
 				}
 				es.Groups = append(es.Groups, expGroup{Alts: [][]model.Value{{bt, v}}, Take: 1, Empty: true})
+			}
+			if passing[b] {
+				es.Groups[len(es.Groups)-1].Phantom = true
 			}
 		}
 		if step < 0 {
